@@ -79,7 +79,8 @@ pub fn run(args: &Args) {
       out.eval(&format!("{}|{:?}|{:?}", src, fac, frag), !base.is_empty(), meta.clone());
       match lint_with(&all, &src, ext, &cfg, None) {
         Outcome::Ok(d) => {
-          let other = |v: &Vec<D>| -> Vec<D> { v.iter().filter(|x| x.code != "no-unused-vars").cloned().collect() };
+          // ban-unused-ignore is by design a function of the other rules' output (a directive naming no-unused-vars becomes unused)
+          let other = |v: &Vec<D>| -> Vec<D> { v.iter().filter(|x| x.code != "no-unused-vars" && x.code != "ban-unused-ignore").cloned().collect() };
           if other(&d) != other(&base) {
             let codes: std::collections::BTreeSet<String> = other(&d).iter().chain(other(&base).iter()).filter(|x| !(other(&d).contains(x) && other(&base).contains(x))).map(|x| x.code.clone()).collect();
             out.found("C18", &format!("config-changed-other-rule:{}", codes.into_iter().collect::<Vec<_>>().join("+")), &src, json!({"meta": meta}));
